@@ -439,7 +439,12 @@ func init() {
 						bound = 2
 					}
 					if tier == "thorough" {
-						bound = 2
+						// two preemptions where the pair has at most ~1600 points (about 1.3 million schedules);
+						// the long bodies (damaged inputs, streaming) keep one
+						long := map[int]bool{5: true, 8: true}
+						if !long[a] && !long[b] {
+							bound = 2
+						}
 						if a == 4 && b == 4 {
 							bound = 3 // the shortest body (92 points): one more preemption
 						}
